@@ -81,6 +81,41 @@ class Closure:
         self.lam = lam
 
 
+def _vectorise(t, elem, whole, lv):
+    """[f(x) for x in arr]  ->  f(arr) when f is elementwise: replace the element by the
+    array; phi nodes become elementwise selections; None if the loop variable survives"""
+    memo = {}
+    ELEMENTWISE = {"add", "sub", "mul", "smul", "div", "sdiv", "pow", "neg", "sqrt", "abs", "exp", "log", "lt", "le", "gt", "ge", "eq", "ne", "const", "sym", "dim", "not", "and", "or", "phi", "where3"}
+
+    def rec(x):
+        if not isinstance(x, Term):
+            return x
+        if x in memo:
+            return memo[x]
+        if x == elem:
+            r = whole
+        elif x == lv:
+            r = None
+        elif x.op in ("const", "sym", "dim"):
+            r = x
+        elif x.op == "phi":
+            parts = [rec(a) for a in x.args]
+            r = None if any(p is None for p in parts) else T("where3", *parts)
+        elif x.op in ELEMENTWISE:
+            parts = [rec(a) for a in x.args]
+            r = None if any(p is None for p in parts) else T(x.op, *parts)
+        else:
+            # any other operation must not involve the loop variable at all
+            r = x if not any(y == lv for y in x.walk()) else None
+        memo[x] = r
+        return r
+
+    out = rec(t)
+    if out is None or not any(y == whole for y in out.walk()):
+        return None
+    return out
+
+
 class Interp:
     def __init__(self, program, order=None, assume=None, config=None):
         from . import apitable
@@ -1281,6 +1316,10 @@ class Interp:
         elt = elt_fn(st)
         fr.loop_depth -= 1
         self._restore_locals(st, saved, n)
+        if not conds and it.kind == "arr" and it.shape is not None and len(it.shape) == 1 and elt.shape == ():
+            vt = _vectorise(elt.term, T("getitem", it.term, T("lv", lid)), it.term, T("lv", lid))
+            if vt is not None:
+                return V("list", vt, items=None, labels=it.labels | elt.labels, orig=frozenset([FRESH]), extra=("comp", elt, tuple(it.shape)), loc=fresh_id())
         term = T("comp", lid, it.term, elt.term, *[c.term for c in conds])
         n_items = self.api.length_dim(self, it) if not conds else None
         shape = None
